@@ -9,18 +9,21 @@ import ast
 
 from .. import AnalysisError
 from ..model import U
-from ..side import side_of_name, expr_side, label_side
+from ..side import side_of_name, expr_side, label_side, sides
 from .common import walk_own, call_name
 
 SKIP = ('py_stringsimjoin/join/disk_edit_distance_join.py', 'py_stringsimjoin/utils/missing_value_handler_disk.py')
 
 
-def run(ctx):
+def run(ctx, only=None):
+    """only: restrict to these module paths (floors are then scaled to what those modules hold)"""
     ctx.group('R-SIDE')
     repo = ctx.repo
-    cnt = dict(S1=0, S2=0, S3=0, S4=0)
+    cnt = dict(S1=0, S2=0, S3=0, S4=0, S5=0, S6=0)
     for f in repo.all_funcs():
         if f.module.relpath in SKIP:
+            continue
+        if only is not None and f.module.relpath not in only:
             continue
         for n in walk_own(f.node):
             if isinstance(n, ast.Assign) and len(n.targets) == 1:
@@ -54,6 +57,40 @@ def run(ctx):
                     if a != b:
                         ctx.check('R-SIDE/S3', f, U(n)[:60], False,
                                   '`%s` indexes a %s-side row with a %s-side index' % (U(n)[:80], a, b), n)
+            if isinstance(n, ast.Call) and isinstance(n.func, ast.Attribute) and n.func.attr == 'index' and len(n.args) == 1 \
+                    and not n.keywords:
+                # <columns of one table>.index(<attribute of a table>)
+                a, b = expr_side(n.func.value), expr_side(n.args[0])
+                if a and b:
+                    cnt['S6'] += 1
+                    if a != b:
+                        ctx.check('R-SIDE/S6', f, U(n)[:60], False,
+                                  '`%s` looks up a %s-side attribute in the %s-side column list' % (U(n)[:80], b, a), n)
+            if isinstance(n, ast.If):
+                # `if <sided name>:` / `if <sided name> is not None:` guarding work on the other side only
+                t = n.test
+                g = None
+                if isinstance(t, ast.Name):
+                    g = t.id
+                elif isinstance(t, ast.Compare) and isinstance(t.left, ast.Name) and len(t.ops) == 1 \
+                        and isinstance(t.ops[0], (ast.IsNot, ast.Is)) and isinstance(t.comparators[0], ast.Constant) \
+                        and t.comparators[0].value is None:
+                    g = t.left.id
+                gs = side_of_name(g) if g else None
+                if gs:
+                    body = n.body if not (isinstance(t, ast.Compare) and isinstance(t.ops[0], ast.Is)) else n.orelse
+                    l = r_ = 0
+                    for st_ in body:
+                        a, b = sides(st_)
+                        l += a
+                        r_ += b
+                    if l or r_:
+                        cnt['S5'] += 1
+                        same, opp = (l, r_) if gs == 'L' else (r_, l)
+                        if opp and not same:
+                            ctx.check('R-SIDE/S5', f, 'if %s' % g, False,
+                                      'the test on the %s-side `%s` guards statements that use only %s-side names: the '
+                                      'wrong side is tested' % (gs, g, 'R' if gs == 'L' else 'L'), n)
             if isinstance(n, ast.Call):
                 r = repo.resolve_call(f, n)
                 if r is not None:
@@ -90,10 +127,15 @@ def run(ctx):
     for k, v in cnt.items():
         for i in range(v):
             ctx.obligations.append(('R-SIDE/%s' % k, '-', 'site %d' % i, True, i < 1))
+    if only is not None:
+        ctx.floor('R-SIDE/sites', sum(cnt.values()), 15, 'sided sites in %s' % (only,))
+        return
     ctx.floor('R-SIDE/S1', cnt['S1'], 250, 'sided assignments')
     ctx.floor('R-SIDE/S2', cnt['S2'], 600, 'sided parameter bindings')
     ctx.floor('R-SIDE/S3', cnt['S3'], 90, 'sided subscripts')
     ctx.floor('R-SIDE/S4', cnt['S4'], 100, 'sided validator labels')
+    ctx.floor('R-SIDE/S5', cnt['S5'], 5, 'sided guards')
+    ctx.floor('R-SIDE/S6', cnt['S6'], 35, 'sided column lookups')
     # positive fixture
     fx = ast.parse("def g(ltable, rtable, l_key_attr, r_key_attr):\n    l_idx = r_key_attr\n    x = l_row[r_idx]\n").body[0]
     hits = 0
